@@ -2,6 +2,7 @@
 extern crate lazy_static;
 extern crate serde_derive;
 
+mod gen;
 mod util;
 #[macro_use]
 mod world;
